@@ -41,6 +41,20 @@ func (h *handlerTap) IsAllowed(ctx context.Context, typeURL string) (bool, error
 
 type addrTable struct {
 	byAddr map[string]Triple // address -> first triple seen with it
+	perSig map[string]int
+}
+
+// violate records at most max violations per signature (a systematic defect would otherwise fill the evidence with one class).
+func (a *addrTable) violate(c *kit.Check, max int, sig, what string, wit any) {
+	if a.perSig == nil {
+		a.perSig = map[string]int{}
+	}
+	a.perSig[sig]++
+	if a.perSig[sig] > max {
+		c.Inc("violations_of_a_recorded_class_not_repeated")
+		return
+	}
+	c.Violate(sig, what, wit)
 }
 
 // enter records addr for t; returns the other triple if addr is already taken by a different triple.
@@ -138,10 +152,10 @@ func c39Pure(c *kit.Check, tab *addrTable, f Family, r *kit.Rng) {
 			c.Violate("C39|address-length", fmt.Sprintf("derived address has %d bytes for %s", len(addr), tr.short()), nil)
 		}
 		if !bytes.Equal(addr, ModelAddr(tr)) {
-			c.Violate("C39|address-differs-from-length-prefixed-model|"+f.Name, fmt.Sprintf("BuildAddressPredictable%s = %x, reference derivation over the length-prefixed triple = %x", tr.short(), addr, ModelAddr(tr)), map[string]any{"client": tr.Client, "sender_hex": hex.EncodeToString([]byte(tr.Sender)), "salt_hex": hex.EncodeToString(tr.Salt)})
+			tab.violate(c, 2, "C39|address-differs-from-length-prefixed-model|"+f.Name, fmt.Sprintf("BuildAddressPredictable%s = %x, reference derivation over the length-prefixed triple = %x", tr.short(), addr, ModelAddr(tr)), map[string]any{"client": tr.Client, "sender_hex": hex.EncodeToString([]byte(tr.Sender)), "salt_hex": hex.EncodeToString(tr.Salt)})
 		}
 		if o, clash := tab.enter(addr, tr); clash {
-			c.Violate("C39|address-collision|"+f.Name, fmt.Sprintf("distinct triples %s and %s derive the same address %x", o.short(), tr.short(), addr),
+			tab.violate(c, 3, "C39|address-collision|"+f.Name, fmt.Sprintf("distinct triples %s and %s derive the same address %x", o.short(), tr.short(), addr),
 				map[string]any{"a": map[string]string{"client": o.Client, "sender_hex": hex.EncodeToString([]byte(o.Sender)), "salt_hex": hex.EncodeToString(o.Salt)},
 					"b": map[string]string{"client": tr.Client, "sender_hex": hex.EncodeToString([]byte(tr.Sender)), "salt_hex": hex.EncodeToString(tr.Salt)}})
 		}
